@@ -82,4 +82,18 @@ Pow2(k) == IF k < 0 \/ k > 20 THEN -1 ELSE <<1, 2, 4, 8, 16, 32, 64, 128, 256, 5
 Int8(x) == IF x >= 0 /\ x % 8 = 0 THEN x \div 8 ELSE -1
 (* the same for parameters that may legitimately be negative; -99999 when absent / fractional *)
 SInt8(x) == IF x % 8 = 0 THEN x \div 8 ELSE -99999
+
+(* self test of the arithmetic (TLC evaluates assumptions before anything else) *)
+ASSUME /\ MulDiv(1234567, 98765, 4321) = <<28218470, 885>>
+       /\ MulDiv(18000000, 130, 936000) = <<2500, 0>>
+       /\ Within3(800, 8, 100, 0, 1, TRUE) = 2 /\ Within3(800, 8, 100, 0, 1, FALSE) = 1 /\ Within3(801, 8, 100, 0, 1, TRUE) = 0
+       /\ Within3(808, 8, 100, 1, 100, TRUE) = 1                      \* exactly 1 % off: float decides, indeterminate
+       /\ Within3(8079, 80, 100, 1, 100, TRUE) = 2 /\ Within3(8081, 80, 100, 1, 100, TRUE) = 0
+       /\ Within3(7921, 80, 100, 1, 100, TRUE) = 2 /\ Within3(7919, 80, 100, 1, 100, TRUE) = 0
+       /\ WithinOfLarger(16160, 160, 100, 1, 100) /\ ~WithinOfLarger(16170, 160, 100, 1, 100)   \* 101.0 vs 101.06
+       /\ Leq3(5, 5, TRUE) = 2 /\ Leq3(5, 5, FALSE) = 1 /\ Leq3(4, 5, FALSE) = 2 /\ Leq3(6, 5, TRUE) = 0
+       /\ Leq3(2000000001, 2000000000, TRUE) = 1
+       /\ ExactDiv(800, 3) = FALSE /\ ExactDiv(800, 64) = TRUE /\ ExactDiv(594, 7) = FALSE
+       /\ InRanges(17, << <<8, 1025, 1>> >>) /\ ~InRanges(17, << <<8, 1032, 8>> >>) /\ ~InRanges(1032, << <<8, 1032, 8>> >>)
+       /\ Int8(24) = 3 /\ Int8(25) = -1 /\ Int8(-1) = -1 /\ SInt8(-8) = -1
 =============================================================================
